@@ -199,13 +199,30 @@ theorem GoodOp.any {fst : Bool} {T : Txt} {raw : RawOp} (h : GoodOp false fst T 
 structure GoodFirst (last : Bool) (T : Txt) (raw : RawOp) : Prop where
   first : ∀ g rest, Blank g → After last rest →
     ∃ r', operandFirst (g ++ (T ++ rest)) = some (raw, r') ∧ skipWs r' = skipWs rest
-  head : ∃ c t, T = c :: t ∧ isWs c = false ∧ c ≠ 58 ∧ c ≠ 43
+  /-- it starts with a visible character other than `+`; a colon is the colon of a relocation (so that
+      the line is not read as a label) -/
+  head : ∃ c t, T = c :: t ∧ isWs c = false ∧ c ≠ 43 ∧ (c = 58 → ∃ d t', t = d :: t' ∧ isRelocC d = true)
 
-theorem GoodOp.toFirst {last : Bool} {T : Txt} {raw : RawOp} (h : GoodOp last true T raw) : GoodFirst last T raw :=
-  ⟨h.first rfl, h.head⟩
+theorem GoodOp.toFirst {last : Bool} {T : Txt} {raw : RawOp} (h : GoodOp last true T raw) : GoodFirst last T raw := by
+  obtain ⟨c, t, hT, hws, h58, h43⟩ := h.head
+  exact ⟨h.first rfl, ⟨c, t, hT, hws, h43, fun e => absurd e h58⟩⟩
 
 theorem GoodFirst.weaken {T : Txt} {raw : RawOp} (h : GoodFirst false T raw) : GoodFirst true T raw :=
   ⟨fun g rest hg ha => h.first g rest hg (IsTail.follow ha), h.head⟩
+
+/-- what a later operand slot needs (kinds that may not stand first, like an identifier written with a
+    relocation, have only this) -/
+structure GoodRest (last : Bool) (T : Txt) (raw : RawOp) : Prop where
+  rest : ∀ g rest, Blank g → After last rest →
+    ∃ r', operandRest (g ++ (T ++ rest)) = some (raw, r') ∧ skipWs r' = skipWs rest
+  noShift : ∀ g rest, Blank g → After last rest → shiftOp (g ++ (T ++ rest)) = none
+
+theorem GoodOp.toRest {last fst : Bool} {T : Txt} {raw : RawOp} (h : GoodOp last fst T raw) : GoodRest last T raw :=
+  ⟨h.rest, h.noShift⟩
+
+theorem GoodRest.weaken {T : Txt} {raw : RawOp} (h : GoodRest false T raw) : GoodRest true T raw :=
+  ⟨fun g rest hg ha => h.rest g rest hg (IsTail.follow ha),
+   fun g rest hg ha => h.noShift g rest hg (IsTail.follow ha)⟩
 
 theorem GoodOp.notFirst {last fst : Bool} {T : Txt} {raw : RawOp} (h : GoodOp last fst T raw) :
     GoodOp last false T raw :=
@@ -222,7 +239,7 @@ structure Slot where
     to be last -/
 def SlotsOk : List Slot → Prop
   | [] => True
-  | x :: xs => Blank x.g1 ∧ Blank x.g2 ∧ GoodOp xs.isEmpty false x.text x.raw ∧ SlotsOk xs
+  | x :: xs => Blank x.g1 ∧ Blank x.g2 ∧ GoodRest xs.isEmpty x.text x.raw ∧ SlotsOk xs
 
 def restText : List Slot → Txt → Txt
   | [], tail => tail
@@ -548,22 +565,51 @@ theorem processOperands_map (l : List (RawOp × List Operand))
     simp [processOperands, h1, ih']
 
 theorem lit_after_none (first : Option (Txt × Txt × RawOp)) (xs : List Slot) (t : LineTail)
-    (hfirst : FirstOk first xs) (ht : t.Ok) (a : Nat) (ha : a = 43 ∨ a = 58) :
-    lit true [a] (afterMnemonic first xs t.text) = none := by
+    (hfirst : FirstOk first xs) (ht : t.Ok) :
+    lit true [43] (afterMnemonic first xs t.text) = none := by
   cases first with
   | none =>
     have := (t.isTail ht).skip
     simp only [afterMnemonic, lit, sk_true]
-    rcases this with h | ⟨c, h⟩ <;> rw [h]
-    · rfl
-    · rcases ha with rfl | rfl <;> rfl
+    rcases this with h | ⟨c, h⟩ <;> rw [h] <;> rfl
   | some f =>
     obtain ⟨g1, T1, raw1⟩ := f
     obtain ⟨hb, _, hgood, _⟩ := hfirst
-    obtain ⟨c, tl, hT, hws, h58, h43⟩ := hgood.head
+    obtain ⟨c, tl, hT, hws, h43, _⟩ := hgood.head
     simp only [afterMnemonic, lit, sk_true, hT, List.cons_append, skipWs_blank_append g1 _ hb, skipWs_cons c _ hws]
-    have : c ≠ a := by rcases ha with rfl | rfl <;> assumption
-    simp [dropPrefix, this]
+    simp [dropPrefix, h43]
+
+theorem relocC_facts (d : Nat) (h : isRelocC d = true) : isWs d = false ∧ d ≠ 47 := by
+  simp only [isRelocC, isAlnumC, isAlphaC, isDigitC, A64.relocExtra] at h
+  simp at h
+  simp only [isWs]; simp; omega
+
+/-- behind the mnemonic no label colon follows: either no colon at all, or the colon of a relocation,
+    behind which the line goes on -/
+theorem label_tail_none (first : Option (Txt × Txt × RawOp)) (xs : List Slot) (t : LineTail)
+    (hfirst : FirstOk first xs) (ht : t.Ok) :
+    (match lit true [58] (afterMnemonic first xs t.text) with
+     | some r1 => atEnd (optP true commentP r1).2 = false
+     | none => True) := by
+  cases first with
+  | none =>
+    have := (t.isTail ht).skip
+    simp only [afterMnemonic, lit, sk_true]
+    rcases this with h | ⟨c, h⟩ <;> rw [h] <;> simp [dropPrefix]
+  | some f =>
+    obtain ⟨g1, T1, raw1⟩ := f
+    obtain ⟨hb, _, hgood, _⟩ := hfirst
+    obtain ⟨c, tl, hT, hws, _, hcolon⟩ := hgood.head
+    simp only [afterMnemonic, lit, sk_true, hT, List.cons_append, skipWs_blank_append g1 _ hb, skipWs_cons c _ hws]
+    by_cases hc : c = 58
+    · obtain ⟨d, t', htl, hd⟩ := hcolon hc
+      obtain ⟨hdws, hd47⟩ := relocC_facts d hd
+      subst hc
+      simp only [dropPrefix, beq_self_eq_true, if_true, htl, List.cons_append]
+      have hcm : commentP (d :: (t' ++ restText xs t.text)) = none := by
+        simp [commentP, lit, sk_true, skipWs_cons d _ hdws, A64.commentSym, dropPrefix, hd47]
+      simp [optP, hcm, atEnd, sk_true, skipWs_idem, skipWs_cons d _ hdws]
+    · simp [dropPrefix, hc]
 
 theorem mnem_idRest (c : Nat) (h : isMnemC c = true) : isIdRestC c = true := by
   simp only [isMnemC, isIdRestC, A64.mnemonicExtra, A64.identRestExtra] at *
@@ -619,14 +665,19 @@ theorem not_other_class (g0 : Txt) (m : Nat) (ms : Txt) (first : Option (Txt × 
         simp [identName, skipWs_cons m _ hmws, alpha_idFirst m hal,
           spanP_append isIdRestC ms _ (fun c hc => mnem_idRest c (hm c (by simp [hc]))) hstop]
       have hoff : identOffset (afterMnemonic first xs t.text) = none := by
-        simp [identOffset, lit_after_none first xs t hfirst ht 43 (Or.inl rfl)]
+        simp [identOffset, lit_after_none first xs t hfirst ht]
       have hid : identifier line = some (⟨none, m :: ms, none⟩, skipWs (afterMnemonic first xs t.text)) := by
         simp only [identifier, optP_none true relocation _ hrel, sk_true]
         rw [hline, skipWs_blank_append g0 _ hg0, skipWs_cons m _ hmws, hname]
         simp [optP, hoff, sk_true]
-      have hcol : lit true [58] (skipWs (afterMnemonic first xs t.text)) = none := by
-        rw [lit_skip]; exact lit_after_none first xs t hfirst ht 58 (Or.inr rfl)
-      simp [labelLine, hid, hcol]
+      have hcol := label_tail_none first xs t hfirst ht
+      simp only [labelLine, hid, lit_skip]
+      cases hl : lit true [58] (afterMnemonic first xs t.text) with
+      | none => rfl
+      | some r1 =>
+        rw [hl] at hcol
+        simp only at hcol
+        simp [hcol]
     · have hidf : isIdFirstC m = false := by
         simp only [isIdFirstC, A64.identFirstExtra]
         simp only [isAlphaC] at hal ⊢; simp at hal ⊢; omega
